@@ -103,6 +103,25 @@ def gen_arith(tier, seed, universe=None, maxlen=3):
             lines.append(f"rdiv ${h} $23 n:{c}"); h += 1
             for op in ("neg", "abs", "absm", "sign"):
                 lines.append(f"{op} ${h} $20"); h += 1
+            # the same operations on an array held with an integer dtype (counts): results are real numbers
+            ivals = [Fraction(r.randint(1, 9) * r.choice([1, -1])) for _ in range(size(xs))]
+            lines.append(arr_line(24, 10, xs, ivals).replace("arr ", "iarr ", 1))
+            c2 = fnum(Fraction(r.choice([1, 3, 5, 7, -3]), r.choice([2, 4])))
+            for op in ("add", "sub", "mul", "div", "min", "max", "radd", "rsub", "rmul", "rdiv"):
+                lines.append(f"{op} ${h} $24 n:{c2}"); h += 1
+            for op in ("add", "sub", "mul", "div", "min", "max"):
+                lines.append(f"{op} ${h} $24 $21"); h += 1
+            lines.append(f"pow ${h} $24 n:2"); h += 1
+            for op in ("neg", "absm", "sign"):
+                lines.append(f"{op} ${h} $24"); h += 1
+            # in-place absolute value / sign of one array, then the out-of-place forms on another one of
+            # the same shape: the first array keeps what the in-place call gave it
+            for ip, oop in (("absi", "absm"), ("signi", "sign")):
+                lines.append(f"copy ${h} $20"); keep = h; h += 1
+                lines.append(f"{ip} ${keep}")
+                lines.append(f"mul ${h} $20 n:3"); h += 1
+                lines.append(f"{oop} ${h} ${h - 1}"); h += 1
+                lines.append(f"dump ${keep}")
             stats["cases"] += 1
             stats["ops"] += h - 30
     return [ln.rstrip() for ln in lines], stats
@@ -187,6 +206,14 @@ def gen_reduce(tier, seed, universe=None, maxlen=3):
                 lines.append(f"shares ${h} $25 {''.join(so) or '-'}"); h += 1
         lines.append(f"sumto ${h} $25"); h += 1
         lines.append(f"sumto ${h} $26"); h += 1
+        # an array of counts (integer dtype): shares, totals and running totals are real numbers
+        lines.append(arr_line(27, 10, xs, [Fraction(r.randint(1, 9)) for _ in range(size(xs))]).replace("arr ", "iarr ", 1))
+        for k in range(len(xs) + 1):
+            for so in itertools.combinations(xs, k):
+                lines.append(f"shares ${h} $27 {''.join(so) or '-'}"); h += 1
+        lines.append(f"sumto ${h} $27"); h += 1
+        for l in xs:
+            lines.append(f"cumsum ${h} $27 {l}"); h += 1
         for l in xs:
             lines.append(f"cumsum ${h} $25 {l}"); h += 1
         stats["cases"] += 1
